@@ -234,7 +234,7 @@ def r12_4(ctx):
     g = ctx.cfg(sd)
     from .common import pm_of
     pms = pm_of(p, sd)
-    coll = pms.find("for _mbox_name, mbox in self.active_mailboxes.items():\n    mboxes.append(mbox)") or pms.find("for mbox in self.active_mailboxes.values():\n    mboxes.append(mbox)")
+    coll = pms.find("for _mbox_name, mbox in self.active_mailboxes.items():\n    mboxes.append(mbox)") or pms.find("for mbox in self.active_mailboxes.values():\n    mboxes.append(mbox)") or pms.find("mboxes = list(self.active_mailboxes.values())") or pms.find("mboxes = [mbox for mbox in self.active_mailboxes.values()]") or pms.find("mboxes = [mbox for _mbox_name, mbox in self.active_mailboxes.items()]")
     shut = pms.find("for mbox in mboxes:\n    tg.create_task(mbox.shutdown())") or pms.find("for mbox in mboxes:\n    await mbox.shutdown()") or pms.find("for mbox2 in mboxes:\n    tg.create_task(mbox2.shutdown())")
     mb = set(g.nodes_for(shut)) if shut is not None else set()  # the loop over the collected mailboxes is reached
     dbc = {n.id for n in g.nodes if n.ast is not None and n.kind == "stmt" and "self.db.commit()" in norm(n.ast)}
@@ -293,8 +293,10 @@ def r12_5(ctx):
         if isinstance(s_, ast.Assign) and isinstance(s_.targets[0], ast.Name) and s_.targets[0].id in tup and isinstance(s_.value, ast.BinOp) and isinstance(s_.value.op, ast.Sub):
             var = s_
     okv = False
-    if var is not None:
-        l, r = var.value.left, var.value.right
+    direct = [x for x in ast.walk(dele[0].args[1]) if isinstance(x, ast.BinOp) and isinstance(x.op, ast.Sub)] if len(dele[0].args) > 1 else []
+    diff = var.value if var is not None else (direct[0] if direct else None)
+    if diff is not None:
+        l, r = diff.left, diff.right
         # left: filled from SELECT name FROM sequences; right: names of the in-memory sequences
         lname = norm(l)
         from_db = any(isinstance(a, ast.AsyncFor) and "select name from sequences" in norm(a.iter, 300).lower() and any(f"{lname}.add(" in norm(b) for b in a.body) for a in body_walk(cd.node))
